@@ -117,7 +117,7 @@ inductive ClsKind where
   | noneType
   | model (fields : List Field)
   | newtype (sup : Hint)
-  | opaque                  -- a class no provider accepts: the request fails
+  | unknown                 -- a class no provider accepts: the request fails
   deriving Repr, Inhabited
 
 structure Univ where
@@ -372,14 +372,25 @@ def replaceTop (t : Hint) : List Loc → List Loc
 
 def isAsIs (c : Clo) : Bool := c == .asIs
 
-/-- The provider reached by a request, after recursion tracking: normalise
-    (through the process-wide cache), instance recipe first, then the builtin
-    provider of the hint's origin.  `rec` sends a sub-request. -/
-def route (M : Mode) (U : Univ) (cap : Nat) (cfg : Cfg) (dir : Dir) (rec : Step) : Step :=
-  fun σ h s0 =>
-  let ns := normSrc cap h s0.norm
-  let src := ns.1
-  let s : RS := { s0 with norm := ns.2 }
+abbrev Res := Option Clo × RS
+
+/-- continue with the response of a sub-request, or propagate `CannotProvide` -/
+def bindRes (r : Res) (k : Clo → RS → Res) : Res :=
+  match r.1 with
+  | none => (none, r.2)
+  | some c => k c r.2
+
+/-- continue with the responses of all sub-requests, or fail if one of them failed -/
+def bindAll (r : List (Option Clo) × RS) (k : List Clo → RS → Res) : Res :=
+  match allSome r.1 with
+  | none => (none, r.2)
+  | some cs => k cs r.2
+
+/-- The provider reached by a request, after recursion tracking and
+    normalisation: instance recipe first, then the builtin provider of the
+    hint's origin.  `src` is the spelling the normalisation cache answered
+    with; `rec` sends a sub-request. -/
+def routeSrc (M : Mode) (U : Univ) (cfg : Cfg) (dir : Dir) (rec : Step) (σ : List Loc) (src : Hint) (s : RS) : Res :=
   match userMatch M U cfg dir src with
   | some fid => (some (.user fid), s)
   | none =>
@@ -391,35 +402,28 @@ def route (M : Mode) (U : Univ) (cap : Nat) (cfg : Cfg) (dir : Dir) (rec : Step)
       | .load => if sc == .bytes then cached M .bytesL s else cached M (.scalarL sc cfg.strict) s
       | .dump => if sc == .bytes then cached M .bytesD s else (some .asIs, s)
     | .noneType => (some (match dir with | .load => .noneL | .dump => .asIs), s)
-    | .opaque => (none, s)
+    | .unknown => (none, s)
     | .newtype sup => rec (replaceTop sup σ) sup s                    -- NewTypeUnwrappingProvider
     | .model fields =>
       let s1 := (cached M (.shape u) s).2                              -- ShapeProvider._get_shape
       let reqs := fields.map fun f => (Loc.field f.name f.required f.type.eqRep, f.type)
-      let r := mapReq rec σ reqs s1
-      match allSome r.1 with
-      | none => (none, r.2)
-      | some cs =>
+      bindAll (mapReq rec σ reqs s1) fun cs t =>
         let fs := (fields.map (·.name)).zip cs
         match dir with
-        | .load => cached M (.modelL u cfg.strict fs) r.2
-        | .dump => cached M (.modelD u fs) r.2
+        | .load => cached M (.modelL u cfg.strict fs) t
+        | .dump => cached M (.modelD u fs) t
   | .lit args =>
     match dir with
     | .dump => (some .asIs, s)
     | .load =>
-      let b := rec (Loc.th (Hint.cls U.bytesUid) :: σ) (.cls U.bytesUid) s   -- _fetch_bytes_loader
-      match b.1 with
-      | none => (none, b.2)
-      | some bl => cached M (.literalL (normLits args) cfg.strict bl) b.2
+      -- _fetch_bytes_loader, then the cached literal loader
+      bindRes (rec (Loc.th (Hint.cls U.bytesUid) :: σ) (.cls U.bytesUid) s) fun bl t =>
+        cached M (.literalL (normLits args) cfg.strict bl) t
   | .seq fl e =>
-    let r := rec (Loc.gp e.eqRep 0 :: σ) e s
-    match r.1 with
-    | none => (none, r.2)
-    | some c =>
+    bindRes (rec (Loc.gp e.eqRep 0 :: σ) e s) fun c t =>
       match dir with
-      | .load => cached M (.seqL (originOf fl) cfg.strict c) r.2
-      | .dump => cached M (.seqD (originOf fl) c) r.2
+      | .load => cached M (.seqL (originOf fl) cfg.strict c) t
+      | .dump => cached M (.seqD (originOf fl) c) t
   | .annotated b _ => rec (replaceTop b σ) b s                         -- TypeHintTagsUnwrappingProvider
   | .union ms =>
     let order := normUnion M U ms
@@ -428,22 +432,22 @@ def route (M : Mode) (U : Univ) (cap : Nat) (cfg : Cfg) (dir : Dir) (rec : Step)
       match order.find? (fun m => m != U.noneUid) with
       | none => (none, s)
       | some m =>
-        let r := rec (Loc.gp (.cls m) 0 :: σ) (.cls m) s
-        match r.1 with
-        | none => (none, r.2)
-        | some c =>
+        bindRes (rec (Loc.gp (.cls m) 0 :: σ) (.cls m) s) fun c t =>
           match dir with
-          | .load => cached M (.optL src c) r.2
-          | .dump => if isAsIs c then (some .asIs, r.2) else cached M (.optD c) r.2
+          | .load => cached M (.optL src c) t
+          | .dump => if isAsIs c then (some .asIs, t) else cached M (.optD c) t
     else
       let reqs := order.zipIdx.map fun (m, i) => (Loc.gp (Hint.cls m) i, Hint.cls m)
-      let r := mapReq rec σ reqs s
-      match allSome r.1 with
-      | none => (none, r.2)
-      | some cs =>
+      bindAll (mapReq rec σ reqs s) fun cs t =>
         match dir with
-        | .load => cached M (.unionL src cs) r.2
-        | .dump => if cs.all isAsIs then (some .asIs, r.2) else cached M (.unionD order cs) r.2
+        | .load => cached M (.unionL src cs) t
+        | .dump => if cs.all isAsIs then (some .asIs, t) else cached M (.unionD order cs) t
+
+/-- normalise through the process-wide cache, then dispatch on the (possibly earlier-seen) spelling -/
+def route (M : Mode) (U : Univ) (cap : Nat) (cfg : Cfg) (dir : Dir) (rec : Step) : Step :=
+  fun σ h s0 =>
+  let ns := normSrc cap h s0.norm
+  routeSrc M U cfg dir rec σ ns.1 { s0 with norm := ns.2 }
 
 /-- `RecursiveRequestBus.send`: `track_request`, `_send_inner`, `track_response`.
     The current location is the head of `σ`. -/
